@@ -1015,7 +1015,7 @@ func searchA(cfgs []*CfgA, deadline time.Time, nworkers int) []*resultA {
 								if x.otherStoresHash(nctx) != bgNextOther[it.ci] {
 									engine.Fatal3("C20a: a store outside %v differs from the background chain (config %s, tick %d, path %v)", trackedStores, c.Name, tick, ch.p.path())
 								}
-								if h := hashDump(x.dumpTracked(x.restore(engine.Fork(nctxOf(x, bgs[wi][it.ci], c, tick)), ch.ov))); h != ch.chainHash {
+								if h := hashDump(x.dumpTracked(x.restore(nctxOf(x, bgs[wi][it.ci], c, tick), ch.ov))); h != ch.chainHash {
 									engine.Fatal3("C20a: overlay does not restore the state (config %s, tick %d)", c.Name, tick)
 								}
 							}
@@ -1043,17 +1043,9 @@ func searchA(cfgs []*CfgA, deadline time.Time, nworkers int) []*resultA {
 					for k, v := range lo {
 						runs[ci].res.Outcomes[k] += v
 					}
-					_ = ci
 				}
-				for ci := range runs {
-					if kind[ci] != 0 {
-						_ = ci
-					}
-				}
-				if len(runs) > 0 {
-					runs[0].res.SelfChecks += localSelf
-				}
-				// poll/block runs are attributed per configuration below via outcomes; keep totals on cfg 0
+				// totals of all configurations are kept on the first result
+				runs[0].res.SelfChecks += localSelf
 				runs[0].res.PollRuns += localPoll
 				runs[0].res.BlockRuns += localBlock
 				mu.Unlock()
@@ -1197,8 +1189,6 @@ func replayA(c *CfgA, path []string) (last []viol, outs []string, finalKey strin
 			pend := (&stateA{fl: fl}).pending()
 			// translate the named choice into a vector over the sorted requested ids: probe first
 			var probe stepOut
-			ps := &priceService{c: c}
-			_ = ps
 			_, _, chosen0 := x.pollOnce(ctx, c, pend, nil, wall0+int64(tick), &probe)
 			var ids []string
 			for _, kv := range strings.Split(chosen0, ",") {
